@@ -284,6 +284,13 @@ class Screen(BaseScreen, RealTerminal):
         self._wait_for_input_ready(self._next_timeout)
         keys, raw = self.parse_input(None, None, self.get_available_raw_input())
 
+        if self._partial_codes and not self._wait_for_input_ready(self.complete_wait):
+            # no event loop to time out an incomplete sequence: the rest did not arrive within
+            # complete_wait, so decode the pending bytes as they stand
+            more_keys, more_raw = self.parse_input(None, None, self.get_available_raw_input(), wait_for_more=False)
+            keys.extend(more_keys)
+            raw = [*raw, *more_raw]
+
         # Avoid pegging CPU at 100% when slowly resizing
         if keys == ["window resize"] and self.prev_input_resize:
             logger.debug('get_input: got "window resize" > 1 times. Enable throttling for resize.')
